@@ -206,6 +206,15 @@ def check_C03(A: Analysis, tier):
                "only by the call that holds it (shared with C07.f)", floor=2)
     release_held_rule(A, rg3, ["store_object", "tag_object", "delete_object"], only_cls="reference_locked_pids")
     rules.append(rg3)
+    # bind-or-reject is decided under a claim; between processes that claim exists only on the multiprocessing side of the constructor
+    _src = [r for r in rules_of(A, "C16") if r.rid == "C16.e"][0]
+    ri3 = Rule("C03", "C03.i", "the claims under which bind-or-reject is decided are process-shared exactly when the documented switch is set "
+               "(shared with C16.e): with USE_MULTIPROCESSING=True the constructor takes the multiprocessing side, so two worker processes cannot both "
+               "find a pid unbound", floor=_src.floor)
+    ri3.instances, ri3.nontrivial, ri3.obligations = list(_src.instances), set(_src.nontrivial), _src.obligations
+    for f in _src.findings:
+        ri3.fail(f.func, f.construct, f.message, f.loc, f.detail)
+    rules.append(ri3)
     return rules
 
 
@@ -351,7 +360,11 @@ def check_C04(A: Analysis, tier):
         if "delete_object" in f.func or "delete_object" in str(f.detail) or "renamed away" in f.message or "before the pid reference" in f.message:
             _sh.fail(f.func, f.construct, f.message, f.loc, f.detail)
     rules.append(_sh)
-    from .rules_locks import no_dir_removal_rule
+    from .rules_locks import no_dir_removal_rule, store_tag_claim_rule
+    rj4 = Rule("C04", "C04.j", "store_object tags inside its own pid claim (shared with C07.k): released earlier, a delete_object of the same pid can remove "
+               "the object between the 'already present' decision and the tagging, and the pid is bound to a removed object", floor=4)
+    store_tag_claim_rule(A, rj4)
+    rules.append(rj4)
     rh4 = Rule("C04", "C04.h", "no call removes a directory of the store (shared with C07.h): a shard directory holds the objects, lists and "
                "references of every identifier with the same prefix, so removing one (rmtree, or rmdir after a wrong emptiness test) takes other pids' data", floor=3)
     no_dir_removal_rule(A, rh4)
@@ -607,6 +620,14 @@ def check_C09(A: Analysis, tier):
     for f in c1e.findings:
         rf9.fail(f.func, f.construct, f.message, f.loc, f.detail)
     rules.append(rf9)
+    c1d = [r for r in rules_of(A, "C01") if r.rid == "C01.d"][0]
+    rg9 = Rule("C09", "C09.g", "the spool file that is renamed into place received the whole of what the caller supplied (shared with C01.d): the stream wrapper reads "
+               "from offset 0 until an empty read - a metadata document or object cut short by the reader is a version nobody supplied", floor=c1d.floor)
+    rg9.instances, rg9.nontrivial, rg9.obligations = list(c1d.instances), set(c1d.nontrivial), c1d.obligations
+    for f in c1d.findings:
+        if f.func.startswith("Stream."):
+            rg9.fail(f.func, f.construct, f.message, f.loc, f.detail)
+    rules.append(rg9)
     return rules
 
 
@@ -758,6 +779,33 @@ def check_C10(A: Analysis, tier):
                     if not any(d[0] == "op" and d[1] in ("file.writelines", "file.write") and d[2] == ev.extra.get("handle") for d in ev.done if len(d) == 3):
                         rf.fail(ev.func, ev.node, "the cid list is truncated before its new content is written: a process death between the two "
                                 "leaves the list empty and every other pid sharing the object loses its reference", A.p.loc(ev.func, ev.node))
+                # write-then-truncate is crash-safe only because the new content is the old one minus some lines, IN THE OLD ORDER: whatever
+                # prefix of it reached the file, followed by the old tail, still names every pid that stays
+                if ev.kind == "WRITE" and ev.prim in ("file.writelines", "file.write") and ev.extra.get("mode", "").startswith("r+") \
+                        and resource_hits(ev, {"CIDREFS"}) and ev.node.args:
+                    rf.ob()
+                    rf.inst(f"{ev.func.qual}:{ev.line} in-place rewrite keeps the order of the lines read")
+                    from .rules_common import expand_locals
+                    wx = expand_locals(ev.func.node, ev.node.args[0])
+                    bad = [c for c in ast.walk(wx) if (isinstance(c, ast.Call) and norm(c.func) in ("sorted", "set", "frozenset", "reversed", "dict.fromkeys",
+                                                                                                   "random.sample", "collections.Counter", "Counter"))
+                           or isinstance(c, (ast.SetComp, ast.Set))]
+                    wn = ev.node.args[0].id if isinstance(ev.node.args[0], ast.Name) else None
+                    bad += [c for c in ast.walk(ev.func.node) if wn and isinstance(c, ast.Call) and isinstance(c.func, ast.Attribute)
+                            and isinstance(c.func.value, ast.Name) and c.func.value.id == wn and c.func.attr in ("sort", "reverse")]
+                    bad += [c for c in ast.walk(ev.func.node) if wn and isinstance(c, ast.Call) and norm(c.func) == "random.shuffle" and c.args
+                            and isinstance(c.args[0], ast.Name) and c.args[0].id == wn]
+                    if bad:
+                        rf.fail(ev.func, ev.node, f"the lines written back over the cid list are re-ordered / de-duplicated (`{norm(bad[0])[:50]}`): a death after part of the "
+                                "new content reached the file leaves 'prefix of the new order + old tail', in which a pid that stays can be in neither part - "
+                                "it drops out of the list although it was never touched", A.p.loc(ev.func, ev.node))
+    if not rf.instances:
+        # no truncate and no in-place write-back at all: the list is replaced some other way (a rename of a finished file is judged by C09.a / C05.g)
+        inplace = [ev for m in ALL_MODES for e in ("delete_object", "tag_object") for ev in A.api(e, m).events
+                   if ev.kind == "WRITE" and ev.prim.startswith("file.") and ev.extra.get("mode", "").startswith(("r+", "w")) and resource_hits(ev, {"CIDREFS"})]
+        if not inplace:
+            rf.ob()
+            rf.inst("no cid list is rewritten in place by delete_object / tag_object (nothing to order)")
     rules.append(rf)
 
     c9 = [r for r in rules_of(A, "C09") if r.rid == "C09.a"][0]
@@ -1196,36 +1244,50 @@ def check_C15(A: Analysis, tier):
     shx = expand_locals(sh.node, rets[0].value)    # intermediate locals inlined: what is returned, as one expression
     slices = [n for n in ast.walk(shx) if isinstance(n, ast.Subscript) and isinstance(n.slice, ast.Slice)]
     comps = [n for n in ast.walk(shx) if isinstance(n, ast.ListComp) and any(isinstance(x, ast.Subscript) and isinstance(x.slice, ast.Slice) for x in ast.walk(n.elt))]
-    if len(slices) != 2 or len(comps) != 1:
+    # a form known to lose characters, whatever else the function does: zip() over one repeated iterator yields complete groups only
+    for z in ast.walk(sh.node):
+        if isinstance(z, ast.Call) and isinstance(z.func, ast.Name) and z.func.id == "zip" and len(z.args) == 1 and isinstance(z.args[0], ast.Starred) \
+                and isinstance(z.args[0].value, ast.BinOp) and isinstance(z.args[0].value.op, ast.Mult):
+            rep = z.args[0].value
+            seq = rep.left if isinstance(rep.left, (ast.List, ast.Tuple)) else rep.right if isinstance(rep.right, (ast.List, ast.Tuple)) else None
+            if seq is not None and len(seq.elts) == 1 and isinstance(seq.elts[0], ast.Call) and norm(seq.elts[0].func) == "iter":
+                rb.ob()
+                rb.inst(f"_shard:{z.lineno} zip over a repeated iterator")
+                rb.fail(sh, z, f"`{norm(z)[:70]}` groups the digest into complete tokens only: zip() stops at the first exhausted argument, so the last "
+                        "len(digest) % width characters never reach the remainder - for widths that do not divide the digest length the file name is cut short",
+                        A.p.loc(sh, z))
+    lossy = bool(rb.findings)
+    if not lossy and (len(slices) != 2 or len(comps) != 1):
         raise AnalysisError("_shard is not in the slice/comprehension form the tiling rule reads "
                             f"({len(slices)} slices, {len(comps)} comprehensions)")
-    comp = comps[0]
-    tok = [s for s in slices if any(s is x for x in ast.walk(comp))][0]
-    rem = [s for s in slices if s is not tok][0]
-    gen = comp.generators[0]
-    ivar = gen.target.id if isinstance(gen.target, ast.Name) else None
-    W, D = {("self.width",): 1}, {("self.depth",): 1}
-    rb.inst(f"token slice `{norm(tok)}` over `{norm(gen.iter)}`")
-    rb.inst(f"remainder slice `{norm(rem)}`")
-    rb.ob(5)
-    lo = _poly(tok.slice.lower, None) if tok.slice.lower is not None else {}
-    hi = _poly(tok.slice.upper, None) if tok.slice.upper is not None else None
-    want_lo = {tuple(sorted((ivar, "self.width"))): 1}
-    want_hi = {tuple(sorted((ivar, "self.width"))): 1, ("self.width",): 1}
-    if lo != want_lo or hi != want_hi or tok.slice.step is not None:
-        rb.fail(sh, tok, f"token {ivar} is cut as `{norm(tok)}`; the layout needs [{ivar}*width : ({ivar}+1)*width]", A.p.loc(sh, tok))
-    if not (isinstance(gen.iter, ast.Call) and norm(gen.iter.func) == "range" and len(gen.iter.args) == 1
-            and _poly(gen.iter.args[0], None) == D) or gen.ifs:
-        rb.fail(sh, gen.iter, f"tokens range over `{norm(gen.iter)}`; the layout needs range(depth)", A.p.loc(sh, gen.iter))
-    rlo = _poly(rem.slice.lower, None) if rem.slice.lower is not None else {}
-    if rlo != {("self.depth", "self.width"): 1} or rem.slice.upper is not None or rem.slice.step is not None:
-        rb.fail(sh, rem, f"remainder is cut as `{norm(rem)}`; the layout needs [depth*width:]", A.p.loc(sh, rem))
-    if norm(tok.value) != norm(rem.value) or norm(tok.value) != sh.node.args.args[1].arg:
-        rb.fail(sh, tok.value, "tokens and remainder are not cut from the digest argument", A.p.loc(sh, tok))
-    # tokens followed by remainder, compacted
-    add = [n for n in ast.walk(shx) if isinstance(n, ast.BinOp) and isinstance(n.op, ast.Add) and any(comp is x for x in ast.walk(n.left))]
-    if not add or not any(rem is x for x in ast.walk(add[0].right)):
-        rb.fail(sh, comp, "sharded path is not `tokens + [remainder]` in that order", A.p.loc(sh, comp))
+    if not lossy:
+        comp = comps[0]
+        tok = [s for s in slices if any(s is x for x in ast.walk(comp))][0]
+        rem = [s for s in slices if s is not tok][0]
+        gen = comp.generators[0]
+        ivar = gen.target.id if isinstance(gen.target, ast.Name) else None
+        W, D = {("self.width",): 1}, {("self.depth",): 1}
+        rb.inst(f"token slice `{norm(tok)}` over `{norm(gen.iter)}`")
+        rb.inst(f"remainder slice `{norm(rem)}`")
+        rb.ob(5)
+        lo = _poly(tok.slice.lower, None) if tok.slice.lower is not None else {}
+        hi = _poly(tok.slice.upper, None) if tok.slice.upper is not None else None
+        want_lo = {tuple(sorted((ivar, "self.width"))): 1}
+        want_hi = {tuple(sorted((ivar, "self.width"))): 1, ("self.width",): 1}
+        if lo != want_lo or hi != want_hi or tok.slice.step is not None:
+            rb.fail(sh, tok, f"token {ivar} is cut as `{norm(tok)}`; the layout needs [{ivar}*width : ({ivar}+1)*width]", A.p.loc(sh, tok))
+        if not (isinstance(gen.iter, ast.Call) and norm(gen.iter.func) == "range" and len(gen.iter.args) == 1
+                and _poly(gen.iter.args[0], None) == D) or gen.ifs:
+            rb.fail(sh, gen.iter, f"tokens range over `{norm(gen.iter)}`; the layout needs range(depth)", A.p.loc(sh, gen.iter))
+        rlo = _poly(rem.slice.lower, None) if rem.slice.lower is not None else {}
+        if rlo != {("self.depth", "self.width"): 1} or rem.slice.upper is not None or rem.slice.step is not None:
+            rb.fail(sh, rem, f"remainder is cut as `{norm(rem)}`; the layout needs [depth*width:]", A.p.loc(sh, rem))
+        if norm(tok.value) != norm(rem.value) or norm(tok.value) != sh.node.args.args[1].arg:
+            rb.fail(sh, tok.value, "tokens and remainder are not cut from the digest argument", A.p.loc(sh, tok))
+        # tokens followed by remainder, compacted
+        add = [n for n in ast.walk(shx) if isinstance(n, ast.BinOp) and isinstance(n.op, ast.Add) and any(comp is x for x in ast.walk(n.left))]
+        if not add or not any(rem is x for x in ast.walk(add[0].right)):
+            rb.fail(sh, comp, "sharded path is not `tokens + [remainder]` in that order", A.p.loc(sh, comp))
     rules.append(rb)
 
     re5 = Rule("C15", "C15.e", "H is the store algorithm over exactly the UTF-8 elements of the string: _computehash feeds every "
